@@ -99,6 +99,10 @@ type Case struct {
 	SingleProc     bool   `json:"single_proc,omitempty"`
 	PassBefore     int    `json:"pass_before,omitempty"` // pass-through actions in front of the action under test
 	PassAfter      int    `json:"pass_after,omitempty"`
+	// DiscardAfterMod > 0: a last action discards every event whose encoded length is a multiple of it
+	// (after recording it like the output would): what the action under test emitted is judged all the
+	// same, but the joined event is now finalized by a discard inside Propagate instead of by the output
+	DiscardAfterMod int `json:"discard_after_mod,omitempty"`
 
 	Sources []Source `json:"sources"`
 
@@ -216,15 +220,16 @@ type panicRec struct {
 }
 
 type execResult struct {
-	configErr string
-	outs      []outRec
-	feedAtUs  [][]int64 // [source][line] virtual time at which In was called
-	accepted  [][]bool
-	timeouts  int // time-out events seen by the action under test
-	holds     int
-	collapses int
-	panics    []panicRec
-	commits   int
+	configErr   string
+	outs        []outRec
+	feedAtUs    [][]int64 // [source][line] virtual time at which In was called
+	accepted    [][]bool
+	timeouts    int // time-out events seen by the action under test
+	tapDiscards int
+	holds       int
+	collapses   int
+	panics      []panicRec
+	commits     int
 }
 
 type harness struct {
@@ -271,6 +276,30 @@ type passAction struct{}
 func (passAction) Start(pipeline.AnyConfig, *pipeline.ActionPluginParams) {}
 func (passAction) Stop()                                                  {}
 func (passAction) Do(*pipeline.Event) pipeline.ActionResult               { return pipeline.ActionPass }
+
+// tapDiscard records an event like the output does and discards it when its encoded length is a
+// multiple of mod; it never holds or collapses.
+type tapDiscard struct {
+	h   *harness
+	mod int
+}
+
+func (tapDiscard) Start(pipeline.AnyConfig, *pipeline.ActionPluginParams) {}
+func (tapDiscard) Stop()                                                  {}
+func (a tapDiscard) Do(e *pipeline.Event) pipeline.ActionResult {
+	if e.IsTimeoutKind() {
+		return pipeline.ActionDiscard
+	}
+	doc := e.Root.EncodeToString()
+	if len(doc)%a.mod != 0 {
+		return pipeline.ActionPass
+	}
+	a.h.mu.Lock()
+	a.h.res.outs = append(a.h.res.outs, outRec{Source: uint64(e.SourceID), Doc: doc, AtUs: time.Since(a.h.start).Microseconds()})
+	a.h.res.tapDiscards++
+	a.h.mu.Unlock()
+	return pipeline.ActionDiscard
+}
 
 // watched delegates to the real action; it only counts results and turns a panic of
 // Do (which would take the whole process down from a processor goroutine) into a
@@ -453,6 +482,16 @@ func execute(c *Case) *execResult {
 	}
 	for i := 0; i < c.PassAfter; i++ {
 		p.AddAction(passInfo())
+	}
+	if c.DiscardAfterMod > 0 {
+		mod := c.DiscardAfterMod
+		p.AddAction(&pipeline.ActionPluginStaticInfo{
+			PluginStaticInfo: &pipeline.PluginStaticInfo{
+				Type:    "verif_tap_discard",
+				Factory: func() (pipeline.AnyPlugin, pipeline.AnyConfig) { return tapDiscard{h: h, mod: mod}, nil },
+			},
+			MatchMode: pipeline.MatchModeAnd,
+		})
 	}
 	p.SetOutput(&pipeline.OutputPluginInfo{
 		PluginStaticInfo:  &pipeline.PluginStaticInfo{Type: "verif_output"},
